@@ -7,4 +7,4 @@ git -C /repo worktree add -q --detach "$WT/repo" HEAD || exit 2
 trap 'git -C /repo worktree remove --force "$WT/repo" 2>/dev/null; rm -rf "$WT"' EXIT
 git -C "$WT/repo" apply "$PATCH" || exit 3
 export GOFLAGS=-mod=mod GOPROXY=off GOSUMDB=off GOTOOLCHAIN=local CGO_ENABLED=0; unset GOWORK
-"$HERE/bin/ssecheck" -repo "$WT/repo" -normalize-dump
+"${SSECHECK_BIN:-$HERE/bin/ssecheck}" -repo "$WT/repo" -normalize-dump
